@@ -69,11 +69,11 @@ def pct_cases(tier):
 
 # ---- str.format -----------------------------------------------------------
 
-FIELDS_NAME = ["", "0", "1", "a", "2"]
+FIELDS_NAME = ["", "0", "1", "a", "2", "self"]      # "self": the name of the first parameter of str.format itself
 FIELDS_PATH = ["", ".real", ".nope", "[0]", "[k]", ".real.imag", "[0][0]"]
 FIELDS_CONV = ["", "!r", "!s", "!a", "!x"]
 FIELDS_SPEC = ["", ":>4", ":{}", ":{0}", ":d", ":{a}", ":>{1}", ":.2f"]
-FMT_ARGS = ['', '1', '"x"', '1, 2', '"x", 3', 'a=1', '1, a=2', 'a="x"', '(1, 2)', '{"k": 1}', '1, 2, 3', 'a=1, b=2', '[5]', '1.5']
+FMT_ARGS = ['', '1', '"x"', '1, 2', '"x", 3', 'a=1', '1, a=2', 'a="x"', '(1, 2)', '{"k": 1}', '1, 2, 3', 'a=1, b=2', '[5]', '1.5', 'self=1', '1, self=2', '**{"self": 1}', '**{"a": 1}']
 
 
 def fmt_cases(tier):
@@ -173,6 +173,12 @@ def _judge(res, kind, t, a, diags, inferred, order):
                                "diagnosed" if real else ("lint-only" if lint else "accepted"))] += 1
     case = {"kind": kind, "template": t, "args": a, "order": order}
     bad = None
+    if any(c == "internal_error" for c, d in diags):
+        # a diagnostic, but not a verdict: the checker crashed on the template
+        ie = next(d for c, d in diags if c == "internal_error")
+        res.violation({"kind": "internal-error", "op": kind, "exc": ie.strip().split("\n")[-1].split("(")[0][:60]}, case,
+                      "%s: pyanalyze reports an internal error (%s); CPython %s" % (expr, ie.strip().split(chr(10))[-1][:120], ("raises %s" % type(val).__name__) if st == "exc" else "formats it"))
+        return
     if st == "exc" and not diagnosed:
         bad = "missed"
     elif st == "ok" and real:
